@@ -1168,7 +1168,7 @@ pub fn oracle_c11(rng: &mut Rng, tier: &str) -> Report {
         let mut k = 0;
         while k < bytes.len() {
             rep.checks += 1;
-            let p = proto::aligned_static(&bytes[..k]);
+            let p: &'static [u8] = &full[..k]; // a prefix of the aligned copy is aligned
             match catch_unwind(AssertUnwindSafe(|| proto::cur::parse_cache(p))) {
                 Err(_) => rep.fail("parse panicked on a prefix", vec![format!("BUF {}", hx(&bytes[..k]))], String::new()),
                 Ok(Err(_)) => {
@@ -1194,7 +1194,7 @@ pub fn oracle_c11(rng: &mut Rng, tier: &str) -> Report {
         // the last bytes always (torn tail)
         for k in bytes.len().saturating_sub(12)..bytes.len() {
             rep.checks += 1;
-            let p = proto::aligned_static(&bytes[..k]);
+            let p: &'static [u8] = &full[..k]; // a prefix of the aligned copy is aligned
             if let Ok(Ok(pc)) = catch_unwind(AssertUnwindSafe(|| proto::cur::parse_cache(p))) {
                 let got = cache_answers_cur(&pc, &qs);
                 for ((q, a), b) in qs.iter().zip(want.iter()).zip(got.iter()) {
@@ -1239,7 +1239,7 @@ pub fn oracle_c11(rng: &mut Rng, tier: &str) -> Report {
             }
             for k in bytes.len().saturating_sub(6)..bytes.len() {
                 rep.checks += 1;
-                let p = proto::aligned_static(&bytes[..k]);
+                let p: &'static [u8] = &full[..k]; // a prefix of the aligned copy is aligned
                 match catch_unwind(AssertUnwindSafe(|| proto::cur::parse_cache(p))) {
                     Err(_) => rep.fail("parse panicked on a prefix", vec![format!("# mapping ending in a {}-byte string, prefix {}", len, k)], String::new()),
                     Ok(Err(_)) => rep.nontrivial += 1,
